@@ -146,6 +146,7 @@ var rwCorpus = []czCase{
 	{Pattern: `(?i)abc|abd`, Source: "corpus"},
 	{Pattern: `x(?:ab|ac)`, Source: "corpus"},
 	{Pattern: `\w+x|\w+y`, Source: "corpus"},
+	{Pattern: `([ab]{3}b\b||-||b)b?`, Source: "corpus"}, // Empty between two letters: they are not merged, also not later
 }
 
 // RW_DEBUG=<file>: append every pair that is not certified
@@ -337,6 +338,14 @@ func rwCompare(cs *czCase, pp *rwPrepared, answer string, o *core.Outcome) {
 	mid := ""
 	if m := a.find("mid"); m != nil && len(m.args()) == 1 {
 		mid = czRender(m.args()[0])
+	}
+	if b := a.find("base"); b != nil && len(b.args()) == 1 {
+		// the residue histogram "before": the certifier of leg Cz alone on the same pair of trees
+		if b.args()[0].atom == "1" {
+			o.Buckets = append(o.Buckets, "cert-alone:certified")
+		} else {
+			o.Buckets = append(o.Buckets, "cert-alone:other-rewrite-or-rejected")
+		}
 	}
 	// what the model did to the un-rewritten tree
 	switch {
